@@ -509,6 +509,27 @@ func (v *FnVC) specCall(x *CallE, env *Env, cl *Clause) Term {
 		return Term{v.specTerm(x.Args[0], env, cl).S, tInt}
 	case "dyntype":
 		return Term{fmt.Sprintf("(dyntype %s)", v.specTerm(x.Args[0], env, cl).S), tInt}
+	case "unbox":
+		// unbox(x, T): the value of dynamic type T held by interface value x
+		a := v.specTerm(x.Args[0], env, cl)
+		tn := x.Args[1].String()
+		tt := v.w.parseType(tn, env.pkg)
+		if tt == nil {
+			v.specFail(cl, "unknown type %s", tn)
+		}
+		sort := v.sortOf(tt)
+		return Term{fmt.Sprintf("(%s %s)", v.w.unboxFn(tt, sort), a.S), tt}
+	case "box":
+		a := v.specTerm(x.Args[0], env, cl)
+		return Term{fmt.Sprintf("(%s %s)", v.w.boxFn(a.T, v.sortOf(a.T)), a.S), types.Universe.Lookup("any").Type()}
+	case "dyntypeIs":
+		a := v.specTerm(x.Args[0], env, cl)
+		tn := x.Args[1].String()
+		tt := v.w.parseType(tn, env.pkg)
+		if tt == nil {
+			v.specFail(cl, "unknown type %s", tn)
+		}
+		return Term{fmt.Sprintf("(and (not (= %s 0)) (= (dyntype %s) %d))", a.S, a.S, v.w.typeTag(tt)), tBool}
 	case "implements":
 		// implements(x, pkg.Iface)
 		a := v.specTerm(x.Args[0], env, cl)
@@ -554,8 +575,13 @@ func (v *FnVC) specApply(sf *SpecFun, x *CallE, env *Env, cl *Clause) Term {
 		v.specFail(cl, "unknown result type %s of %s", sf.Result, sf.Name)
 	}
 	var args []Term
-	for _, a := range x.Args {
-		args = append(args, v.specTerm(a, env, cl))
+	for i, a := range x.Args {
+		at := v.specTerm(a, env, cl)
+		// implicit conversion of a concrete value to an interface parameter
+		if pt := v.w.parseType(sf.Params[i].Type, pkg); pt != nil && types.IsInterface(pt) && at.T != nil && !types.IsInterface(at.T) && !isNilT(at) {
+			at = Term{fmt.Sprintf("(%s %s)", v.w.boxFn(at.T, v.sortOf(at.T)), at.S), pt}
+		}
+		args = append(args, at)
 	}
 	if sf.Body == nil {
 		name := v.w.declareSpecFun(sf, v, pkg)
